@@ -245,6 +245,22 @@ pub fn apply_program<'a>(p: &Program, objs: &'a [Obj]) -> Result<MessageBuilder<
 }
 
 /// Convenience: program -> bytes through the builder (None if anything was refused or panicked).
+/// The same program serialised with `write_into` into a destination pre-filled with `fill`
+/// (a reused, not zeroed, transmit buffer), optionally after `into_owned()`.
+pub fn build_program_dirty(p: &Program, fill: u8, owned: bool) -> Option<Vec<u8>> {
+    crate::ctx::guard(|| {
+        let objs = make_objs(p).ok()?;
+        let b = apply_program(p, &objs).ok()?;
+        let b = if owned { b.into_owned() } else { b };
+        let mut d = vec![fill; b.byte_len() + 4];
+        let n = b.write_into(&mut d).ok()?;
+        d.truncate(n);
+        Some(d)
+    })
+    .ok()
+    .flatten()
+}
+
 pub fn build_program(p: &Program) -> Option<Vec<u8>> {
     crate::ctx::guard(|| {
         let objs = make_objs(p).ok()?;
